@@ -1,6 +1,6 @@
 """C14 driver: real sna2ctl.main on generated images / ranges / code maps, then sna2skool + skool2bin on
-its output; and direct calls of snactl._find_terminal_instruction on images built from abstract
-instruction lengths for comparison with CtlGen!FindTerminal."""
+its output (out_cases: image classes; rst_cases: programs with inline RST arguments, sna2ctl -r); and direct calls of
+snactl._find_terminal_instruction on images built from abstract instruction lengths for comparison with CtlGen!FindTerminal."""
 import os
 import random
 import re
@@ -17,7 +17,7 @@ PROBE_UNEXECUTED_ENTRY = {'mem': [0xAF, 0x28, 0x04, 0xC3, 0x0A, 0x80, 0x00, 0xC3
 # Open finding out:terminator:U-directive-beyond-end, smallest form: XOR A / JP NZ,32774 (never taken) / JR $ and, never executed, at
 # 32774 a JP whose operand runs over the end address 32776: 'U 32777' is written after 'i 32776'.
 PROBE_U_BEYOND_END = {'mem': [0xAF, 0xC2, 0x06, 0x80, 0x18, 0xFE, 0xC3, 0xC9], 'org': 32768, 'map': [32768, 32769, 32772]}
-# Open finding out:overlap-warning:rst-argument-walk:directive-inside-executed-jump, smallest form: RST 8 / DEFB 24 / JP 32770 with -r
+# Open finding out:overlap-warning:rst-argument-walk:directive-inside-jump, smallest form: RST 8 / DEFB 24 / JP 32770 with -r
 # (RSTHandlerConfig 8:B): the code map block ends after the RST opcode, the search for the end of the routine starts AT the argument,
 # reads it as JR and puts 'c 32771' inside the JP.
 PROBE_RST_ARG_WALK = {'mem': [0xCF, 0x18, 0xC3, 0x02, 0x80], 'org': 32768, 'map': [32768, 32770], 'args': ['-r'], 'prog': {8: 1},
@@ -538,6 +538,11 @@ def rst_stats(c, sites, prog):
     handled = rst_config_of(c['rstcfg'] or '8:B') if ('-r' in c['args'] or '--handle-rst' in c['args']) else {}
     mem, org, mp = c['image'], c['org'], set(c['map'])
     c['rst_sites'] = c['rst_handled'] = c['rst_oplike'] = c['rst_endlike'] = c['rst_sharp'] = c['rst_undeclared'] = 0
+    c['rst_walk_ends'] = []
+
+    def length(p):          # as sna2ctl is told: an RST with configured arguments is one instruction
+        return z80len.length(memx, p) + (handled.get(memx[p] - 0xC7, 0) if memx[p] & 0xC7 == 0xC7 else 0)
+    memx = list(mem) + [0] * 4
     for off, sargs in sites:
         n = mem[off] - 0xC7
         if org + off not in mp:
@@ -553,8 +558,16 @@ def rst_stats(c, sites, prog):
         if any(b in OPLIKE for b in sargs):
             c['rst_oplike'] += 1
         # a walk that starts at the first argument byte instead of skipping the arguments
-        memx = list(mem) + [0] * 4
         p, nxt, e = off + 1, off + 1 + len(sargs), False
+        # (where the jumps/returns end that such a walk finds before it is in step with the executed instructions again)
+        ends = []
+        while p < min(len(mem), nxt + 16) and len(ends) < 3 and not (p >= nxt and org + p in mp):
+            e = is_end_at(mem, p)[0]
+            p += length(p)
+            if e:
+                ends.append(org + p)
+        c['rst_walk_ends'] += ends
+        p, e = off + 1, False
         while p < nxt and not e:
             e = is_end_at(mem, p)[0]
             p += z80len.length(memx, p)
@@ -631,6 +644,10 @@ def _drive_out(sub, k, binf, args_, strict, start, end, mapaddrs, mapfmt, full, 
     # an instruction of the code map that straddles the requested END cannot be rendered without running into
     # the terminating i block: that one warning is inherent in the input, every other warning counts
     warns = [l for l in serr.splitlines() if l.startswith('WARNING') and not l.rstrip().endswith('instruction at %d' % end)]
+    # (so are the configured arguments of an RST - with -r one instruction - when they run over END)
+    straddle = re.compile(r"WARNING: '[BW]' directive at (%d|%d)/\S+ overlaps 'i' directive at %d/" % (end - 1, end - 2, end))
+    c['rst_argument_straddles_end'] = sum(1 for l in warns if straddle.match(l))
+    warns = [l for l in warns if not straddle.match(l)]
     if warns:
         c['warn'] = 1
         c['warning'] = '\n'.join(warns)[-400:]
@@ -668,5 +685,5 @@ def out_replay(wd, rp, mapfmt):
     full[org:org + len(mem)] = mem
     c = drive_out(wd, 0, binf, args_, rp['strict'], rp['start'], rp['end'], list(rp['map']), mapfmt, full, rp.get('image_kind', '?'), org, mem,
                   rp.get('rstcfg', ''))
-    c.update({k: v for k, v in rp.items() if k.startswith('rst_')})         # (what the input is, see rst_stats)
+    c.update({k: v for k, v in rp.items() if k.startswith('rst_') and k not in c})         # (what the input is, see rst_stats)
     return c
